@@ -437,6 +437,44 @@ def rule_TB9(rep, srcdir, tier):
         rep.unknown(rid, "fewer than 3 client-creatable queue classes found (%d)" % n)
 
 
+def rule_MP10(rep, prog, q):
+    rid = rep.rule("C06-MP10", "the side suspend counter is only looked at under its lock, and the decision based on it is made after the lock was taken: in "
+                   "_dispatch_lane_suspend_slow / _dispatch_lane_resume_slow every access to dq_side_suspend_cnt is dominated by _dispatch_queue_sidelock_lock, and "
+                   "resume_slow transfers counts back only after finding the side count non-zero under the lock (another resumer may already have done the transfer: "
+                   "a second transfer wraps the side count and the queue stays suspended after N suspends and N resumes)", floor=4)
+    n = 0
+    for name in ("_dispatch_lane_suspend_slow", "_dispatch_lane_resume_slow"):
+        fn = prog.fn(name)
+        rep.saw(fn)
+        locks = calls_named(fn, ("_dispatch_queue_sidelock_lock", "_dispatch_queue_sidelock_trylock"))
+        acc = [i for i in fn.all_insts() if i.op in ("load", "store") and "dq_side_suspend_cnt" in prog.fields(i)]
+        if not locks or not acc:
+            rep.unknown(rid, "anchor vanished in %s (side lock calls=%d, side counter accesses=%d)" % (name, len(locks), len(acc)))
+            continue
+        for a in acc:
+            n += 1
+            rep.require(rid, any(fn.dominates(l_, a) for l_ in locks), a.loc, name, "side-count-outside-lock:%s" % name,
+                        "%s %s dq_side_suspend_cnt at a point not dominated by taking the side lock: two threads overflowing (or draining) the inline counter together "
+                        "both act on the same stale value - suspensions are stranded in, or invented from, the side counter"
+                        % (name, "reads" if a.op == "load" else "writes"), sample={"fn": name, "access": a.loc})
+    fn = prog.fn("_dispatch_lane_resume_slow")
+    cas = [i for i in fn.all_insts() if i.op in ("cmpxchg", "atomicrmw") and (prog.fields(i) & DQ_STATE)]
+    sl = [l for l in fn.all_insts() if l.op == "load" and "dq_side_suspend_cnt" in prog.fields(l)]
+    locks = calls_named(fn, ("_dispatch_queue_sidelock_lock", "_dispatch_queue_sidelock_trylock"))
+    for l_ in locks:
+        for kind, inst, cx, path in paths.walk(fn, l_, lambda i: i in cas):
+            if kind != "hit":
+                continue
+            n += 1
+            known = any(("i", s_.id) in cx.nonnull or (isinstance(cx.value(["i", s_.id]), tuple) and cx.value(["i", s_.id])[0] == "c" and cx.value(["i", s_.id])[1] != 0)
+                        or cx.value(["i", s_.id]) == paths.NONNULL for s_ in sl)
+            rep.require(rid, known, inst.loc, fn.name, "resume-slow-transfers-from-empty-side-count",
+                        "_dispatch_lane_resume_slow reaches the transfer of HALF suspend counts back into dq_state on a path (%s) that did not find the side counter "
+                        "non-zero after taking the side lock" % path, sample={"path": path})
+    if n < 4:
+        rep.unknown(rid, "fewer than 4 side-counter obligations found (%d)" % n)
+
+
 def rule_WM6(rep, prog, q, ex):
     from .C01 import PLAIN_STORE_OK
     rid = rep.rule("C06-WM6", "the suspend count lives in dq_state: outside constructors / destructors the word is changed only by atomic read-modify-write "
@@ -482,6 +520,8 @@ def run(rep, tier="quick", srcdir=None, only=None):
         rule_MP8(rep, prog, q)
     if want("C06-TB9"):
         rule_TB9(rep, srcdir, tier)
+    if want("C06-MP10"):
+        rule_MP10(rep, prog, q)
     if want("C18-TB2"):
         # "initially inactive" is one digit of the attribute index: the attribute table decodes every one of its entries as itself (shared with C18)
         from . import C18
